@@ -137,6 +137,7 @@ def FastCtx.k0 (c : FastCtx F) (B : Nat) (q : Nat) : Nat :=
 
 /-- certificate: the hypotheses of the integer-layer theorems on this instance -/
 def FastCtx.monoCert (c : FastCtx F) (B : Nat) : Bool :=
+  c.hE o B 0 == 0 &&
   (List.range c.n).all (fun i => decide (c.hE o B i ≤ c.hE o B (i + 1))) &&
   (List.range (c.n + 1)).all (fun i => c.hE o B i == c.hL o B i)
 
